@@ -87,7 +87,7 @@ func ParseHMS(str string) (*HMS, error) {
 	} else {
 		s = 0
 	}
-	return &HMS{uint8(h), uint8(m), uint8(s)}, nil
+	return &HMS{toUint8(h), toUint8(m), toUint8(s)}, nil
 }
 
 func ParseDHMS(str string) (*DHMS, error) {
@@ -100,6 +100,10 @@ func ParseDHMS(str string) (*DHMS, error) {
 	days, err := strconv.ParseInt(parts[0], 10, 0)
 	if err != nil {
 		return nil, err
+	}
+	if days < 0 {
+		return nil,
+			errors.New("invalid DHMS string '" + str + "': negative days")
 	}
 	hms, err := ParseHMS(parts[1])
 	if err != nil {
